@@ -243,7 +243,10 @@ Print Assumptions task_facts_are_stable.
    and resume it; [its] = what the step does, with ghost marks IIter / IIterEnd id k for the start and
    the end of an iteration.  k = IFall (the body ran to its end) and k = IContinue are the ends that do
    not leave the loop: the loop-iteration boundaries.  The theorems quantify over the statement, the
-   fuel and the environment (variables + resume positions left by ANY earlier suspensions). *)
+   fuel and the environment (variables + resume positions left by ANY earlier suspensions) - EVERY
+   statement: since fix a1ebdfd (finding C15-while-continue-no-suspension) the ContinueException handler
+   of execute_while_statement reaches the common end of the iteration too, so the former hypothesis
+   "no while loop whose iteration can end by continue" and the two _refuted theorems are gone. *)
 
 (* Inside a task (auto-yield mode): however the iteration ended - falling off the end of the body or
    `continue` from any depth of blocks / if branches - the boundary is the last thing the step does:
@@ -252,7 +255,7 @@ Print Assumptions task_facts_are_stable.
    Exit kinds that leave the loop (break, return) or suspend inside it are not boundaries. *)
 Theorem task_iteration_end_suspends :
   forall (A : Type) fuel (s : bstmt A) e its r e',
-  wc_free A s = true -> bexec A true fuel s e = (its, r, e') ->
+  bexec A true fuel s e = (its, r, e') ->
   forall pre id k post, its = pre ++ IIterEnd id k :: post -> boundary k = true ->
     r = RYield true /\
     Forall (fun it => exists id' k', it = IIterEnd id' k' /\ boundary k' = false) post /\
@@ -264,34 +267,16 @@ Print Assumptions task_iteration_end_suspends.
    run_background_tasks_one_cycle. *)
 Theorem main_iteration_end_runs_background :
   forall (A : Type) fuel (s : bstmt A) e its r e',
-  wc_free A s = true -> bexec A false fuel s e = (its, r, e') ->
+  bexec A false fuel s e = (its, r, e') ->
   forall pre id k post, its = pre ++ IIterEnd id k :: post -> boundary k = true ->
     exists post', post = IBg :: post'.
 Proof. exact exec_main_law_l. Qed.
 Print Assumptions main_iteration_end_runs_background.
 
-(* wc_free excludes exactly the while loops whose iteration can end by `continue`: for them both laws
-   fail on the faithful model (and on the binary: known finding C15-while-continue-no-suspension).
-   q = 0; while (q < 2) { q = q + 1; println(7); continue; } *)
-Theorem while_continue_keeps_the_turn_refuted :
-  exists fuel (s : bstmt nat) e its r e' pre id post x,
-    bexec nat true fuel s e = (its, r, e') /\
-    its = pre ++ IIterEnd id IContinue :: post /\ In (ISimple x) post.
-Proof. exact while_continue_task_refuted_l. Qed.
-Print Assumptions while_continue_keeps_the_turn_refuted.
-
-Theorem while_continue_skips_background_refuted :
-  exists fuel (s : bstmt nat) e its r e' pre id post,
-    bexec nat false fuel s e = (its, r, e') /\
-    its = pre ++ IIterEnd id IContinue :: post /\ ~ (exists post', post = IBg :: post').
-Proof. exact while_continue_main_refuted_l. Qed.
-Print Assumptions while_continue_skips_background_refuted.
-
 (* the request tree the machine runs for such a step: whatever the scheduler replies, a step that
    reaches a boundary ends its statement with YieldException(true) *)
 Theorem boundary_step_ends_with_loop_yield :
   forall (b : bstmt simple) l o l',
-  wc_free simple b = true ->
   has_boundary simple (fst (fst (bexec simple true body_fuel b (l_env l)))) = true ->
   leaf (denote true (SBody b) l) o l' -> o = OYield true.
 Proof. exact denote_task_boundary_yields_l. Qed.
@@ -335,7 +320,17 @@ Proof. vm_compute. repeat split; auto 30. Qed.
 Example continue_loop_suspends_every_iteration :
   let body := BBlock 2 [BSimple (XPrint 7); BIf (CLt 0 9) (BBlock 3 [BBlock 4 [BContinue]]) None; BSimple (XPrint 8)] in
   let lp : bstmt simple := BFor 1 0 3 body in
-  wc_free simple lp = true /\
+  has_boundary simple (fst (fst (bexec simple true body_fuel lp env0))) = true /\
+  (let funs := [[SSimple (XSpawn 1 0); SSimple (XAwait 0)]; [SBody lp; SReturn]] in
+   filter (fun ev => match ev with EOut _ | EYield _ _ _ => true | _ => false end) (snd (crun funs 5 200 cinit))
+   = [EOut 7; EYield 1 true 0; EOut 7; EYield 1 true 0; EOut 7; EYield 1 true 0]).
+Proof. vm_compute. repeat split; reflexivity. Qed.
+
+(* the same for a WHILE loop whose every iteration ends by `continue` (the program shape of the repaired
+   finding C15-while-continue-no-suspension): one line per turn, every turn ends with a loop yield *)
+Example while_continue_loop_suspends_every_iteration :
+  let body := BBlock 2 [BInc 0; BSimple (XPrint 7); BContinue] in
+  let lp : bstmt simple := BWhile 1 (CLt 0 3) body in
   has_boundary simple (fst (fst (bexec simple true body_fuel lp env0))) = true /\
   (let funs := [[SSimple (XSpawn 1 0); SSimple (XAwait 0)]; [SBody lp; SReturn]] in
    filter (fun ev => match ev with EOut _ | EYield _ _ _ => true | _ => false end) (snd (crun funs 5 200 cinit))
